@@ -158,7 +158,7 @@ Section Facts.
   Ltac hsimpl :=
     cbn [request plugin buffer must_flush reads_teared torn sent hq pq orc_calls ocd parse_calls exc
          client_gone mk queue_h queue_p set_request note_parse set_plugin note_orc note_ocd
-         set_must_flush set_reads_teared set_torn set_exc set_client_gone set_io fst snd map exn_response].
+         set_must_flush set_reads_teared set_torn set_exc set_client_gone set_io fst snd map exn_response is_nil].
 
   (* what handle_data may change: it appends to the buffer what the plugin hook queued and then at
      most one packet of the handler's own, whose site is recorded truthfully; it never touches
@@ -202,8 +202,9 @@ Section Facts.
     plugin h <> None /\ is_complete (request h) = true /\ orc_calls h = 1 /\ hq h = [] /\ exc h = None.
 
   Ltac fin := hsimpl; eauto; try congruence; try discriminate; try reflexivity; try (intro; discriminate).
+  Ltac rew_hyps := repeat match goal with H : ?l = _ |- context [?l] => rewrite H end.
   Ltac core_solve :=
-    hsimpl; rewrite ?is_nil_app_cons; hsimpl;
+    hsimpl; rewrite ?is_nil_app_cons; hsimpl; rew_hyps; cbn [app]; hsimpl;
     repeat match goal with
            | H : negb _ = true |- _ => apply negb_true_iff in H
            | H : negb _ = false |- _ => apply negb_false_iff in H
@@ -230,4 +231,507 @@ Section Facts.
     all: hsimpl; rewrite ?Hq, ?Hp, ?Ho, ?Hd, ?He, ?Hpl; cbn [app]; hsimpl.
     all: core_solve.
   Qed.
+
+  Lemma hd_from_S h d : coreS h ->
+    let '(h', r) := hd h d in
+    (r = HOk false /\ coreS h') \/
+    (r = HOk true /\ (exists x, hq h' = [x]) /\ exc h' = None) \/
+    (r = HOk true /\ hq h' = [] /\ exc h' <> None) \/
+    (exists e, r = HErr (Other e) /\ coreS h').
+  Proof.
+    intros (Hpl & Hc & Ho & Hq & He). unfold coreS.
+    hd_cases h d.
+    all: try (rewrite Hc in *; discriminate).
+    all: try congruence.
+    all: hsimpl; rewrite ?is_nil_app_cons; hsimpl; rew_hyps; cbn [app]; hsimpl.
+    all: first
+      [ solve [left; repeat split; fin]
+      | solve [right; left; repeat split; fin]
+      | solve [right; right; left; repeat split; fin]
+      | solve [right; right; right; eexists; repeat split; fin] ].
+  Qed.
+
+  (* ---------------------------------------------------------------- the classes as propositions *)
+  Lemma is_none_true {A} (o : option A) : is_none o = true <-> o = None.
+  Proof. destruct o; cbn; split; congruence. Qed.
+  Lemma is_none_false {A} (o : option A) : negb (is_none o) = true <-> o <> None.
+  Proof. destruct o; cbn; split; congruence. Qed.
+
+  Lemma waiting_iff h : waiting h = true <->
+    coreW h /\ buffer h = [] /\ sent h = [] /\ torn h = false /\ must_flush h = false /\
+    reads_teared h = false /\ client_gone h = false.
+  Proof.
+    unfold waiting, coreW.
+    rewrite !andb_true_iff, !negb_true_iff, !is_nil_true, !is_none_true, N.eqb_eq. tauto.
+  Qed.
+
+  Lemma serving_iff h : serving h = true <-> coreS h.
+  Proof.
+    unfold serving, coreS.
+    rewrite !andb_true_iff, is_none_false, !is_nil_true, !is_none_true, N.eqb_eq. tauto.
+  Qed.
+
+  Lemma rejected_iff h : rejected h = true <->
+    (exists x, hq h = [x]) /\ exc h = None /\ (must_flush h = true \/ torn h = true).
+  Proof.
+    unfold rejected. destruct (hq h) as [|x [|y t]]; cbn [andb].
+    - split; [discriminate|]. intros [[x Hx] _]. discriminate.
+    - rewrite !andb_true_iff, is_none_true, orb_true_iff. split.
+      + intros [He Hf]. repeat split; auto. now exists x.
+      + intros (_ & He & Hf). tauto.
+    - split; [discriminate|]. intros [[x0 Hx] _]. discriminate.
+  Qed.
+
+  Lemma closed_iff h : closed_no_response h = true <->
+    exc h <> None /\ hq h = [] /\ (torn h = true \/ must_flush h = true \/ reads_teared h = true).
+  Proof.
+    unfold closed_no_response. rewrite !andb_true_iff, is_none_false, is_nil_true, !orb_true_iff. tauto.
+  Qed.
+
+  Lemma client_closed_iff h : client_closed h = true <->
+    client_gone h = true /\ plugin h = None /\ hq h = [] /\ exc h = None /\ torn h = true.
+  Proof.
+    unfold client_closed. rewrite !andb_true_iff, !is_none_true, is_nil_true. tauto.
+  Qed.
+
+  (* ---------------------------------------------------------------- the invariant *)
+  Definition Inv (h : handler) : Prop :=
+    waiting h = true \/ serving h = true \/ rejected h = true \/ closed_no_response h = true \/
+    client_closed h = true.
+
+  Ltac inW := left; apply waiting_iff; unfold coreW in *; hsimpl.
+  Ltac inS := right; left; apply serving_iff; unfold coreS in *; hsimpl.
+  Ltac inR := right; right; left; apply rejected_iff; hsimpl.
+  Ltac inC := right; right; right; left; apply closed_iff; hsimpl.
+  Ltac inE := right; right; right; right; apply client_closed_iff; hsimpl.
+
+  Lemma has_buffer_false h : has_buffer h = false <-> buffer h = [].
+  Proof. unfold has_buffer. rewrite negb_false_iff. apply is_nil_true. Qed.
+  Lemma has_buffer_true h : has_buffer h = true <-> buffer h <> [].
+  Proof. unfold has_buffer. destruct (buffer h); cbn; split; congruence. Qed.
+
+  (* what a reading handle_events does after handle_data returned (h2, r) *)
+  Definition after_data (h2 : handler) (r : hres bool) : handler :=
+    match r with
+    | HOk true =>
+        if has_buffer h2 then set_reads_teared (set_must_flush h2 true) false
+        else set_torn (set_reads_teared h2 true)
+    | HOk false => set_reads_teared h2 false
+    | HErr (Other (OSError k)) =>
+        if k =? SSL_WANT_READ then set_reads_teared h2 false
+        else let h3 := set_reads_teared (set_exc h2 (Other (OSError k))) true in
+             if has_buffer h3 then h3 else set_torn h3
+    | HErr e => set_torn (set_exc h2 e)
+    end.
+
+  Lemma step_reading h ev : torn h = false -> must_flush h = false -> reads_teared h = false ->
+    exists h1, logical h1 = logical h /\ must_flush h1 = false /\ reads_teared h1 = false /\
+      torn h1 = false /\ sent h1 ++ concat (buffer h1) = sent h ++ concat (buffer h) /\
+      (buffer h = [] -> buffer h1 = [] /\ sent h1 = sent h) /\
+      stp h ev =
+        match handle_readables cfg orcf ocdf h1 (ev_r ev) with
+        | (h2, HOk b) => let h3 := set_reads_teared h2 b in
+                         if b && negb (has_buffer h3) then set_torn h3 else h3
+        | (h2, HErr e) => set_torn (set_exc h2 e)
+        end.
+  Proof.
+    intros Ht Hm Hr. unfold step. rewrite Ht, Hm. unfold handle_events. cbn [ev_w ev_r].
+    set (w := if has_buffer h then ev_w ev else None).
+    pose proof (handle_writables_spec h w) as Hw.
+    assert (Hnb : buffer h = [] -> handle_writables cfg h w = (h, false)).
+    { intros Hb. unfold w. apply has_buffer_false in Hb. rewrite Hb. reflexivity. }
+    destruct (handle_writables cfg h w) as [h1 wt].
+    destruct Hw as (Hl & Hrt & Htt & Hc & Hwt).
+    destruct wt; [destruct Hwt; congruence|].
+    exists h1. do 4 (split; [congruence|]). split; [exact Hc|]. split.
+    - intros Hb. specialize (Hnb Hb). inversion Hnb. now subst.
+    - assert (E1 : reads_teared h1 = false) by congruence. rewrite E1.
+      destruct (handle_readables cfg orcf ocdf h1 (ev_r ev)) as [h2 [b|e]]; [|reflexivity].
+      cbv zeta. destruct (b && negb (has_buffer (set_reads_teared h2 b))); reflexivity.
+  Qed.
+
+  Lemma step_data h ev d : torn h = false -> must_flush h = false -> reads_teared h = false ->
+    ev_r ev = Some (Data d) ->
+    exists h1, logical h1 = logical h /\ must_flush h1 = false /\ reads_teared h1 = false /\
+      torn h1 = false /\ sent h1 ++ concat (buffer h1) = sent h ++ concat (buffer h) /\
+      (buffer h = [] -> buffer h1 = [] /\ sent h1 = sent h) /\
+      stp h ev = let '(h2, r) := hd h1 d in after_data h2 r.
+  Proof.
+    intros Ht Hm Hr Hev.
+    destruct (step_reading h ev Ht Hm Hr) as (h1 & F1 & F2 & F3 & F4 & F5 & F6 & E).
+    exists h1. do 6 (split; [assumption|]). rewrite E, Hev.
+    unfold handle_readables, base_handle_readables.
+    destruct (hd h1 d) as [h2 r]. unfold after_data.
+    destruct r as [[|]|[pe|oe]].
+    - destruct (has_buffer h2) eqn:Hb2.
+      + hsimpl. cbn [andb]. reflexivity.
+      + unfold has_buffer in *. hsimpl. rewrite Hb2. reflexivity.
+    - reflexivity.
+    - reflexivity.
+    - destruct oe; try reflexivity.
+      destruct (k =? SSL_WANT_READ); [reflexivity|].
+      hsimpl. cbn [andb]. unfold has_buffer. hsimpl.
+      destruct (negb (is_nil (buffer h2))); reflexivity.
+  Qed.
+
+  Lemma step_gone h ev : torn h = false -> must_flush h = false -> reads_teared h = false ->
+    ev_r ev = Some Eof \/ ev_r ev = Some RecvErr ->
+    exists h1, logical h1 = logical h /\ must_flush h1 = false /\ reads_teared h1 = false /\
+      torn h1 = false /\ sent h1 ++ concat (buffer h1) = sent h ++ concat (buffer h) /\
+      (buffer h = [] -> buffer h1 = [] /\ sent h1 = sent h) /\
+      stp h ev = let h3 := set_reads_teared (set_client_gone h1) true in
+                 if has_buffer h3 then h3 else set_torn h3.
+  Proof.
+    intros Ht Hm Hr Hev.
+    destruct (step_reading h ev Ht Hm Hr) as (h1 & F1 & F2 & F3 & F4 & F5 & F6 & E).
+    exists h1. do 6 (split; [assumption|]). rewrite E.
+    destruct Hev as [-> | ->]; unfold handle_readables, base_handle_readables; cbv zeta; cbn [andb];
+      destruct (has_buffer _); reflexivity.
+  Qed.
+
+  Lemma step_idle h ev : torn h = false -> must_flush h = false -> reads_teared h = false ->
+    ev_r ev = None ->
+    exists h1, logical h1 = logical h /\ must_flush h1 = false /\ reads_teared h1 = false /\
+      torn h1 = false /\ sent h1 ++ concat (buffer h1) = sent h ++ concat (buffer h) /\
+      (buffer h = [] -> buffer h1 = [] /\ sent h1 = sent h) /\
+      stp h ev = set_reads_teared h1 false.
+  Proof.
+    intros Ht Hm Hr Hev.
+    destruct (step_reading h ev Ht Hm Hr) as (h1 & F1 & F2 & F3 & F4 & F5 & F6 & E).
+    exists h1. do 6 (split; [assumption|]). rewrite E, Hev. reflexivity.
+  Qed.
+
+  Lemma logical_eq h1 h : logical h1 = logical h ->
+    request h1 = request h /\ plugin h1 = plugin h /\ hq h1 = hq h /\ pq h1 = pq h /\
+    orc_calls h1 = orc_calls h /\ ocd h1 = ocd h /\ parse_calls h1 = parse_calls h /\
+    exc h1 = exc h /\ client_gone h1 = client_gone h.
+  Proof. unfold logical. intros H. inversion H. repeat split; assumption. Qed.
+
+  Lemma coreW_logical h1 h : logical h1 = logical h -> coreW h -> coreW h1.
+  Proof.
+    intros H (A & B & C & D & E & F & G). apply logical_eq in H as (R1 & R2 & R3 & R4 & R5 & R6 & R7 & R8 & R9).
+    unfold coreW. rewrite R1, R2, R3, R4, R5, R6, R8. repeat split; assumption.
+  Qed.
+  Lemma coreS_logical h1 h : logical h1 = logical h -> coreS h -> coreS h1.
+  Proof.
+    intros H (A & B & C & D & E). apply logical_eq in H as (R1 & R2 & R3 & R4 & R5 & R6 & R7 & R8 & R9).
+    unfold coreS. rewrite R1, R2, R3, R5, R8. repeat split; assumption.
+  Qed.
+
+  Lemma queued_has_buffer h1 h2 r x : hd_post h1 h2 r -> hq h1 = [] -> hq h2 = [x] -> has_buffer h2 = true.
+  Proof.
+    intros (_ & _ & _ & _ & _ & qp & qh & Hb & _ & Hq & _ & _) H1 H2.
+    rewrite H1 in Hq. cbn [app] in Hq. rewrite H2 in Hq. subst qh.
+    apply has_buffer_true. rewrite Hb. cbn [map]. intros E.
+    apply app_eq_nil in E as [_ E]. apply app_eq_nil in E as [_ E]. discriminate.
+  Qed.
+
+  (* after_data only changes flags and the ghost exc *)
+  Lemma after_data_S h2 r : coreS h2 ->
+    (r = HOk true \/ r = HOk false \/ exists e, r = HErr (Other e)) -> Inv (after_data h2 r).
+  Proof.
+    intros HS [-> | [-> | [e ->]]]; unfold after_data.
+    - destruct (has_buffer h2); inS; exact HS.
+    - inS; exact HS.
+    - destruct HS as (A & B & C & D & E).
+      destruct e; try (inC; repeat split; auto; discriminate).
+      destruct (k =? SSL_WANT_READ); [inS; repeat split; assumption|].
+      cbv zeta. destruct (has_buffer _); inC; repeat split; auto; discriminate.
+  Qed.
+
+  Lemma after_data_R h2 x : hq h2 = [x] -> exc h2 = None -> has_buffer h2 = true -> Inv (after_data h2 (HOk true)).
+  Proof.
+    intros Hx He Hb. unfold after_data. rewrite Hb. inR. repeat split; eauto.
+  Qed.
+
+  Lemma after_data_C h2 : hq h2 = [] -> exc h2 <> None -> Inv (after_data h2 (HOk true)).
+  Proof.
+    intros Hx He. unfold after_data. destruct (has_buffer h2); inC; repeat split; auto.
+  Qed.
+
+  Lemma Inv_step h ev : Inv h -> Inv (stp h ev).
+  Proof.
+    intros HI. destruct (no_read h) eqn:Hn.
+    - (* nothing is read: only flags, buffer and sent move *)
+      destruct (step_no_read h ev Hn) as (Hl & Hn' & Hmt & _ & _).
+      set (h' := stp h ev) in *.
+      apply logical_eq in Hl as (R1 & R2 & R3 & R4 & R5 & R6 & R7 & R8 & R9).
+      destruct HI as [HW|[HS|[HR|[HC|HE]]]].
+      + apply waiting_iff in HW as (_ & _ & _ & Ht & Hm & Hr & _).
+        unfold no_read in Hn. rewrite Ht, Hm, Hr in Hn. discriminate.
+      + right; left. apply serving_iff. apply serving_iff in HS.
+        destruct HS as (A & B & C & D & E). unfold coreS. rewrite R1, R2, R3, R5, R8. repeat split; assumption.
+      + right; right; left. apply rejected_iff. apply rejected_iff in HR as (A & B & C).
+        rewrite R3, R8. repeat split; auto. apply orb_true_iff. apply Hmt. apply orb_true_iff. exact C.
+      + right; right; right; left. apply closed_iff. apply closed_iff in HC as (A & B & C).
+        rewrite R3, R8. repeat split; auto. unfold no_read in Hn'. rewrite !orb_true_iff in Hn'. tauto.
+      + apply client_closed_iff in HE as (A & B & C & D & E).
+        assert (h' = h) as ->. { unfold h', step. now rewrite E. }
+        right; right; right; right. apply client_closed_iff. repeat split; assumption.
+    - (* the handler reads *)
+      unfold no_read in Hn. rewrite !orb_false_iff in Hn. destruct Hn as [[Ht Hm] Hr].
+      destruct HI as [HW|[HS|[HR|[HC|HE]]]].
+      + apply waiting_iff in HW as (HcW & Hb & Hs & _ & _ & _ & Hg).
+        destruct (ev_r ev) as [[d| |]|] eqn:Hev.
+        * destruct (step_data h ev d Ht Hm Hr Hev) as (h1 & F1 & F2 & F3 & F4 & F5 & F6 & E).
+          destruct (F6 Hb) as [Hb1 Hs1]. rewrite E.
+          pose proof (coreW_logical _ _ F1 HcW) as HcW1.
+          pose proof (hd_from_W h1 d HcW1) as HWd. pose proof (hd_post_holds h1 d) as HP.
+          destruct (hd h1 d) as [h2 r].
+          destruct HWd as [(-> & Hc2 & Hbuf)|[(Hr2 & Hc2)|[(-> & [x Hx] & He)|[(-> & Hx & He)|(e & -> & Hc2)]]]].
+          -- destruct HP as (Pm & Pr & Pt & Ps & Pg & _).
+             apply logical_eq in F1 as (_ & _ & _ & _ & _ & _ & _ & _ & R9).
+             unfold after_data. left. apply waiting_iff. hsimpl.
+             repeat split; try apply Hc2; try congruence.
+          -- apply after_data_S; [exact Hc2|]. destruct Hr2; auto.
+          -- eapply after_data_R; eauto. eapply queued_has_buffer; eauto. apply HcW1.
+          -- apply after_data_C; auto.
+          -- apply after_data_S; [exact Hc2|]. right; right. now exists e.
+        * destruct (step_gone h ev Ht Hm Hr (or_introl Hev)) as (h1 & F1 & F2 & F3 & F4 & F5 & F6 & E).
+          destruct (F6 Hb) as [Hb1 Hs1]. rewrite E. cbv zeta.
+          apply logical_eq in F1 as (R1 & R2 & R3 & R4 & R5 & R6 & R7 & R8 & R9).
+          destruct HcW as (A & B & C & D & E' & F & G).
+          unfold has_buffer. hsimpl. rewrite Hb1. cbn [is_nil negb].
+          inE. repeat split; congruence.
+        * destruct (step_gone h ev Ht Hm Hr (or_intror Hev)) as (h1 & F1 & F2 & F3 & F4 & F5 & F6 & E).
+          destruct (F6 Hb) as [Hb1 Hs1]. rewrite E. cbv zeta.
+          apply logical_eq in F1 as (R1 & R2 & R3 & R4 & R5 & R6 & R7 & R8 & R9).
+          destruct HcW as (A & B & C & D & E' & F & G).
+          unfold has_buffer. hsimpl. rewrite Hb1. cbn [is_nil negb].
+          inE. repeat split; congruence.
+        * destruct (step_idle h ev Ht Hm Hr Hev) as (h1 & F1 & F2 & F3 & F4 & F5 & F6 & E).
+          destruct (F6 Hb) as [Hb1 Hs1]. rewrite E.
+          pose proof (coreW_logical _ _ F1 HcW) as HcW1.
+          apply logical_eq in F1 as (_ & _ & _ & _ & _ & _ & _ & _ & R9).
+          left. apply waiting_iff. hsimpl. repeat split; try apply HcW1; congruence.
+      + apply serving_iff in HS.
+        destruct (ev_r ev) as [[d| |]|] eqn:Hev.
+        * destruct (step_data h ev d Ht Hm Hr Hev) as (h1 & F1 & F2 & F3 & F4 & F5 & F6 & E).
+          rewrite E.
+          pose proof (coreS_logical _ _ F1 HS) as HS1.
+          pose proof (hd_from_S h1 d HS1) as HSd. pose proof (hd_post_holds h1 d) as HP.
+          destruct (hd h1 d) as [h2 r].
+          destruct HSd as [(-> & Hc2)|[(-> & [x Hx] & He)|[(-> & Hx & He)|(e & -> & Hc2)]]].
+          -- apply after_data_S; auto.
+          -- eapply after_data_R; eauto. eapply queued_has_buffer; eauto. apply HS1.
+          -- apply after_data_C; auto.
+          -- apply after_data_S; [exact Hc2|]. right; right. now exists e.
+        * destruct (step_gone h ev Ht Hm Hr (or_introl Hev)) as (h1 & F1 & F2 & F3 & F4 & F5 & F6 & E).
+          rewrite E. cbv zeta. pose proof (coreS_logical _ _ F1 HS) as HS1.
+          destruct (has_buffer _); inS; exact HS1.
+        * destruct (step_gone h ev Ht Hm Hr (or_intror Hev)) as (h1 & F1 & F2 & F3 & F4 & F5 & F6 & E).
+          rewrite E. cbv zeta. pose proof (coreS_logical _ _ F1 HS) as HS1.
+          destruct (has_buffer _); inS; exact HS1.
+        * destruct (step_idle h ev Ht Hm Hr Hev) as (h1 & F1 & F2 & F3 & F4 & F5 & F6 & E).
+          rewrite E. pose proof (coreS_logical _ _ F1 HS) as HS1. inS; exact HS1.
+      + apply rejected_iff in HR as (_ & _ & [C|C]); congruence.
+      + apply closed_iff in HC as (_ & _ & [C|[C|C]]); congruence.
+      + apply client_closed_iff in HE as (_ & _ & _ & _ & C). congruence.
+  Qed.
+
+  (* ---------------------------------------------------------------- bookkeeping invariant *)
+  Definition Aux (h : handler) : Prop :=
+    conserved h /\ Forall (site_ok cfg) (hq h) /\ (hq h <> [] -> no_read h = true) /\
+    (torn h = true -> buffer h = [] \/ exc h <> None) /\ (length (hq h) <= 1)%nat.
+
+  Lemma Aux_after_data h2 r :
+    conserved h2 -> Forall (site_ok cfg) (hq h2) -> (length (hq h2) <= 1)%nat -> torn h2 = false ->
+    (hq h2 <> [] -> r = HOk true /\ has_buffer h2 = true) -> Aux (after_data h2 r).
+  Proof.
+    intros Hc Hs Hl Ht Hq. unfold Aux, conserved, no_read, after_data in *.
+    assert (Hq' : forall b, hq h2 <> [] -> r = HOk b -> b = true).
+    { intros b H E. destruct (Hq H) as [E' _]. congruence. }
+    assert (Hq'' : forall e, hq h2 <> [] -> r <> HErr e).
+    { intros e H E. destruct (Hq H) as [E' _]. congruence. }
+    destruct r as [[|]|[pe|oe]]; [ | | | destruct oe; [ | | | | | | | | destruct (k =? SSL_WANT_READ) | ] ];
+      cbv zeta; try destruct (has_buffer _) eqn:Hb; hsimpl; repeat split; auto.
+    all: first
+      [ solve [intros _; rewrite ?orb_true_r; reflexivity]
+      | solve [intros H; congruence]
+      | solve [intros _; left; apply has_buffer_false; unfold has_buffer in *; hsimpl; exact Hb]
+      | solve [intros _; right; discriminate]
+      | solve [intros H; specialize (Hq' _ H eq_refl); discriminate]
+      | solve [intros H; exfalso; eapply Hq''; eauto]
+      | idtac ].
+  Qed.
+
+  Lemma Aux_step h ev : Aux h -> Aux (stp h ev).
+  Proof.
+    intros (Hc & Hs & Hq & Ht & Hl).
+    destruct (torn h) eqn:Et.
+    { assert (stp h ev = h) as ->. { unfold step. now rewrite Et. } repeat split; auto. }
+    destruct (no_read h) eqn:Hn.
+    - destruct (step_no_read h ev Hn) as (Hlg & Hn' & _ & Hcv & Htn).
+      set (h' := stp h ev) in *.
+      apply logical_eq in Hlg as (R1 & R2 & R3 & R4 & R5 & R6 & R7 & R8 & R9).
+      unfold Aux, conserved. rewrite R3, R4, Hcv. repeat split; auto.
+      intros H. destruct (Htn H) as [H1|H1]; [congruence|now left].
+    - assert (Hnil : hq h = []).
+      { destruct (hq h) eqn:E; [reflexivity|]. assert (false = true) by (apply Hq; discriminate). discriminate. }
+      unfold no_read in Hn. rewrite Et in Hn. cbn [orb] in Hn. apply orb_false_iff in Hn as [Hm Hr].
+      destruct (ev_r ev) as [[d| |]|] eqn:Hev.
+      + destruct (step_data h ev d Et Hm Hr Hev) as (h1 & F1 & F2 & F3 & F4 & F5 & F6 & E).
+        rewrite E. pose proof (hd_post_holds h1 d) as HP. destruct (hd h1 d) as [h2 r].
+        apply logical_eq in F1 as (R1 & R2 & R3 & R4 & R5 & R6 & R7 & R8 & R9).
+        destruct HP as (Pm & Pr & Pt & Ps & Pg & qp & qh & Pb & Ppq & Phq & Psite & Pq).
+        rewrite R3, Hnil in Phq. cbn [app] in Phq.
+        apply Aux_after_data.
+        * unfold conserved in *. rewrite Ps, Pb, Ppq, Phq, R4.
+          rewrite !concat_app. rewrite app_assoc, F5, Hc, Hnil. cbn [map concat]. rewrite app_nil_r. now rewrite <- !app_assoc.
+        * now rewrite Phq.
+        * rewrite Phq. destruct Pq as [->|(x & -> & _)]; cbn; lia.
+        * congruence.
+        * rewrite Phq. intros H. destruct Pq as [->|(x & -> & Hx & -> & _)]; [congruence|].
+          split; [reflexivity|]. apply has_buffer_true. rewrite Pb. cbn [map]. intros E'.
+          apply app_eq_nil in E' as [_ E']. apply app_eq_nil in E' as [_ E']. discriminate.
+      + destruct (step_gone h ev Et Hm Hr (or_introl Hev)) as (h1 & F1 & F2 & F3 & F4 & F5 & F6 & E).
+        rewrite E. cbv zeta.
+        apply logical_eq in F1 as (R1 & R2 & R3 & R4 & R5 & R6 & R7 & R8 & R9).
+        unfold Aux, conserved, no_read in *.
+        destruct (has_buffer _) eqn:Hb; hsimpl; rewrite ?R3, ?R4, ?F5; repeat split; auto; try congruence.
+        intros _. left. apply has_buffer_false in Hb. exact Hb.
+      + destruct (step_gone h ev Et Hm Hr (or_intror Hev)) as (h1 & F1 & F2 & F3 & F4 & F5 & F6 & E).
+        rewrite E. cbv zeta.
+        apply logical_eq in F1 as (R1 & R2 & R3 & R4 & R5 & R6 & R7 & R8 & R9).
+        unfold Aux, conserved, no_read in *.
+        destruct (has_buffer _) eqn:Hb; hsimpl; rewrite ?R3, ?R4, ?F5; repeat split; auto; try congruence.
+        intros _. left. apply has_buffer_false in Hb. exact Hb.
+      + destruct (step_idle h ev Et Hm Hr Hev) as (h1 & F1 & F2 & F3 & F4 & F5 & F6 & E).
+        rewrite E.
+        apply logical_eq in F1 as (R1 & R2 & R3 & R4 & R5 & R6 & R7 & R8 & R9).
+        unfold Aux, conserved, no_read in *. hsimpl. rewrite ?R3, ?R4, ?F5. repeat split; auto; congruence.
+  Qed.
+
+  (* ---------------------------------------------------------------- every reachable state *)
+  Lemma new_handler_Inv : Inv new_handler.
+  Proof. left. reflexivity. Qed.
+  Lemma new_handler_Aux : Aux new_handler.
+  Proof.
+    unfold Aux, conserved. cbn. repeat split; auto; try discriminate; try (intros H; now elim H).
+  Qed.
+
+  Lemma fold_Inv evs : forall h, Inv h -> Inv (fold_left stp evs h).
+  Proof. induction evs as [|ev evs IH]; intros h H; cbn [fold_left]; [exact H|]. apply IH, Inv_step, H. Qed.
+  Lemma fold_Aux evs : forall h, Aux h -> Aux (fold_left stp evs h).
+  Proof. induction evs as [|ev evs IH]; intros h H; cbn [fold_left]; [exact H|]. apply IH, Aux_step, H. Qed.
+
+  Lemma run_Inv evs : Inv (runs evs).
+  Proof. apply fold_Inv, new_handler_Inv. Qed.
+  Lemma run_Aux evs : Aux (runs evs).
+  Proof. apply fold_Aux, new_handler_Aux. Qed.
+
+  Lemma run_app evs more : runs (evs ++ more) = fold_left stp more (runs evs).
+  Proof. unfold run. apply fold_left_app. Qed.
+
+  (* ---------------------------------------------------------------- exactly one outcome *)
+  Ltac kill :=
+    unfold waiting, serving, rejected, closed_no_response, client_closed;
+    rew_hyps; cbn [is_nil is_none negb andb orb];
+    repeat (rewrite ?andb_false_r; cbn [andb]); try reflexivity.
+
+  Lemma outcomes_one h : Inv h -> count_true (outcomes h) = 1%nat.
+  Proof.
+    unfold outcomes, count_true.
+    intros [HW|[HS|[HR|[HC|HE]]]].
+    - rewrite HW. apply waiting_iff in HW as ((A & B & C & D & E & F & G) & Hb & Hs & Ht & Hm & Hr & Hg).
+      assert (E1 : serving h = false) by kill.
+      assert (E2 : rejected h = false) by kill.
+      assert (E3 : closed_no_response h = false) by kill.
+      assert (E4 : client_closed h = false) by kill.
+      now rewrite E1, E2, E3, E4.
+    - rewrite HS. apply serving_iff in HS as (A & B & C & D & E).
+      destruct (plugin h) as [k|] eqn:Ep; [|congruence].
+      assert (E1 : waiting h = false) by kill.
+      assert (E2 : rejected h = false) by kill.
+      assert (E3 : closed_no_response h = false) by kill.
+      assert (E4 : client_closed h = false) by kill.
+      now rewrite E1, E2, E3, E4.
+    - rewrite HR. apply rejected_iff in HR as ([x A] & B & C).
+      assert (E1 : waiting h = false) by kill.
+      assert (E2 : serving h = false) by kill.
+      assert (E3 : closed_no_response h = false) by kill.
+      assert (E4 : client_closed h = false) by kill.
+      now rewrite E1, E2, E3, E4.
+    - rewrite HC. apply closed_iff in HC as (A & B & C).
+      destruct (exc h) as [e|] eqn:Ee; [|congruence].
+      assert (E1 : waiting h = false) by kill.
+      assert (E2 : serving h = false) by kill.
+      assert (E3 : rejected h = false) by kill.
+      assert (E4 : client_closed h = false) by kill.
+      now rewrite E1, E2, E3, E4.
+    - rewrite HE. apply client_closed_iff in HE as (A & B & C & D & E).
+      assert (E1 : waiting h = false) by kill.
+      assert (E2 : serving h = false) by kill.
+      assert (E3 : rejected h = false) by kill.
+      assert (E4 : closed_no_response h = false) by kill.
+      now rewrite E1, E2, E3, E4.
+  Qed.
+
+  Theorem trichotomy evs : count_true (outcomes (runs evs)) = 1%nat.
+  Proof. apply outcomes_one, run_Inv. Qed.
+
+  (* ---------------------------------------------------------------- a rejection is final *)
+  Lemma rejected_no_read h : rejected h = true -> no_read h = true.
+  Proof.
+    intros H. apply rejected_iff in H as (_ & _ & [C|C]); unfold no_read; rewrite C; cbn; auto using orb_true_r.
+  Qed.
+
+  Lemma rejected_stays evs : forall h, rejected h = true ->
+    rejected (fold_left stp evs h) = true /\ logical (fold_left stp evs h) = logical h.
+  Proof.
+    induction evs as [|ev evs IH]; intros h H; cbn [fold_left]; [auto|].
+    pose proof (rejected_no_read h H) as Hn.
+    destruct (step_no_read h ev Hn) as (Hl & _ & Hmt & _ & _).
+    assert (H' : rejected (stp h ev) = true).
+    { apply rejected_iff in H as (A & B & C). apply rejected_iff.
+      apply logical_eq in Hl as (R1 & R2 & R3 & R4 & R5 & R6 & R7 & R8 & R9).
+      rewrite R3, R8. repeat split; auto. apply orb_true_iff, Hmt, orb_true_iff, C. }
+    destruct (IH _ H') as [I1 I2]. split; [exact I1|congruence].
+  Qed.
+
+  Theorem reject_is_final evs more : rejected (runs evs) = true ->
+    rejected (runs (evs ++ more)) = true /\ logical (runs (evs ++ more)) = logical (runs evs).
+  Proof. intros H. rewrite run_app. now apply rejected_stays. Qed.
+
+  (* ---------------------------------------------------------------- what the client receives *)
+  (* the handler's own output is at most one packet, queued after everything the plugin queued,
+     and what has been sent plus what is pending is exactly what was queued *)
+  Theorem output_accounted evs : let h := runs evs in
+    sent h ++ concat (buffer h) = concat (pq h) ++ concat (map fst (hq h)) /\
+    (length (hq h) <= 1)%nat /\ Forall (site_ok cfg) (hq h).
+  Proof. destruct (run_Aux evs) as (A & B & _ & _ & C). repeat split; assumption. Qed.
+
+  (* rejected and closed: the client got the whole response, nothing after it *)
+  Theorem rejected_delivered_whole evs r site : let h := runs evs in
+    rejected h = true -> hq h = [(r, site)] -> torn h = true -> sent h = concat (pq h) ++ r /\ buffer h = [].
+  Proof.
+    intros h HR Hq Ht. destruct (run_Aux evs) as (A & _ & _ & D & _). fold h in A, D.
+    apply rejected_iff in HR as (_ & He & _).
+    destruct (D Ht) as [Hb|Hx]; [|congruence].
+    unfold conserved in A. rewrite Hb, Hq in A. cbn in A. rewrite !app_nil_r in A. auto.
+  Qed.
+
+  (* rejected: the response is the canned 400 or the raised exception's own choice; non-empty *)
+  Theorem rejected_response evs : let h := runs evs in rejected h = true ->
+    exists r site, hq h = [(r, site)] /\
+      match site with None => r = BAD_REQUEST cfg | Some e => exn_response (agent cfg) e = Some r end.
+  Proof.
+    intros h HR. apply rejected_iff in HR as ([[r site] Hx] & _ & _).
+    destruct (run_Aux evs) as (_ & B & _). fold h in B. rewrite Hx in B. inversion B as [|? ? Hs _]; subst.
+    exists r, site. split; [reflexivity|]. unfold site_ok in Hs. cbn in Hs. destruct site; exact Hs.
+  Qed.
+
+  (* waiting / closed without response / client closed: nothing of the handler's making *)
+  Theorem nothing_of_its_own evs : let h := runs evs in
+    hq h = [] -> sent h ++ concat (buffer h) = concat (pq h).
+  Proof.
+    intros h Hq. destruct (run_Aux evs) as (A & _). fold h in A. unfold conserved in A.
+    rewrite Hq in A. cbn in A. now rewrite app_nil_r in A.
+  Qed.
+
+  (* on_request_complete runs at most once on a connection, and only with a plugin *)
+  Theorem orc_at_most_once evs : orc_calls (runs evs) <= 1.
+  Proof.
+    destruct (run_Inv evs) as [HW|[HS|[HR|[HC|HE]]]].
+  Abort.
 End Facts.
